@@ -716,6 +716,16 @@ func (x *Exec) loopHeader(h *ssa.BasicBlock, ci *cfgInfo, pre *State, reach Term
 			}
 		}
 	}
+	// ghost cells: call counters of contracted functions called in the body, the clock
+	for _, name := range x.loopContractCalls(h, ci) {
+		post.cells["calls:"+name] = u.W.Fresh("calls", SInt)
+		u.Assume(reach, Ge(post.cells["calls:"+name].(Term), IntLit(0)))
+	}
+	if last, ok := pre.cells["ghost.now"].(Term); ok {
+		nn := u.W.Fresh("now.ns", SInt)
+		u.Assume(reach, Ge(nn, last))
+		post.cells["ghost.now"] = nn
+	}
 	// heaps: new generation constrained by the write frame
 	allocBefore := pre.alloc
 	post.alloc = u.W.Fresh("alloc", SInt)
@@ -976,11 +986,19 @@ func (x *Exec) loopHeapWrites(h *ssa.BasicBlock, ci *cfgInfo) map[string]bool {
 					}
 					callee := c.StaticCallee()
 					if callee == nil {
-						// closure value from a cell: scan all anonymous functions of the enclosing function
-						for _, anon := range x.fn.AnonFuncs {
+						// function value: any anonymous function of the enclosing function, or any closure
+						// that was turned into a first-class value so far
+						cands := append([]*ssa.Function(nil), x.fn.AnonFuncs...)
+						for _, rc := range x.u.closures {
+							cands = append(cands, rc.c.Fn)
+						}
+						for _, anon := range cands {
 							if !seen[anon] {
 								seen[anon] = true
-								if !scan(anon, anon.Blocks, depth+1) {
+								if fc := x.u.eng.contractFor(anon); fc != nil && fc.HasMod && len(fc.Modifies) == 0 {
+									continue
+								}
+								if anon.Blocks == nil || !scan(anon, anon.Blocks, depth+1) {
 									return false
 								}
 							}
@@ -1094,4 +1112,60 @@ func rootTypeOfAddr(v ssa.Value, x *Exec) types.Type {
 		return pt.Elem()
 	}
 	return nil
+}
+
+// loopContractCalls: display names of contracted functions that may be called (modularly) in the loop body.
+func (x *Exec) loopContractCalls(h *ssa.BasicBlock, ci *cfgInfo) []string {
+	out := map[string]bool{}
+	seen := map[*ssa.Function]bool{}
+	var scan func(blocks []*ssa.BasicBlock, depth int)
+	visitFn := func(fn *ssa.Function, depth int) {
+		if fn == nil || seen[fn] || depth > maxInlineDepth {
+			return
+		}
+		seen[fn] = true
+		if fc := x.u.eng.contractFor(fn); fc != nil && (len(fc.Ensures) > 0 || len(fc.Requires) > 0 || fc.HasMod || fc.Assumed || fc.Pure) && fc.Opts["inline"] == "" {
+			out[fnDisplayName(fn)] = true
+			return
+		}
+		if fn.Blocks != nil && (x.u.eng.inRepo(fn) || fn.Synthetic != "") {
+			scan(fn.Blocks, depth+1)
+		}
+	}
+	scan = func(blocks []*ssa.BasicBlock, depth int) {
+		for _, b := range blocks {
+			for _, in := range b.Instrs {
+				if mc, ok := in.(*ssa.MakeClosure); ok {
+					visitFn(mc.Fn.(*ssa.Function), depth)
+				}
+				c, ok := in.(ssa.CallInstruction)
+				if !ok {
+					continue
+				}
+				if callee := c.Common().StaticCallee(); callee != nil {
+					visitFn(callee, depth)
+				} else if !c.Common().IsInvoke() {
+					if _, isB := c.Common().Value.(*ssa.Builtin); !isB {
+						for _, anon := range x.fn.AnonFuncs {
+							visitFn(anon, depth)
+						}
+						for _, rc := range x.u.closures {
+							visitFn(rc.c.Fn, depth)
+						}
+					}
+				}
+			}
+		}
+	}
+	var blocks []*ssa.BasicBlock
+	for b := range ci.loopBody[h] {
+		blocks = append(blocks, b)
+	}
+	scan(blocks, 0)
+	var names []string
+	for k := range out {
+		names = append(names, k)
+	}
+	sort.Strings(names)
+	return names
 }
